@@ -393,6 +393,10 @@ func runChain(r *report.Run, cc *sim.ChainCase) *report.Failure {
 				// previous == current only before any upgrade
 				return report.Failf("chain/fork-record", "slot %d: fork.previous_version equals current_version after an upgrade", s)
 			}
+			// every upgrade_to_X records pre.fork.current_version: the version of the fork right before this one
+			if prev := l.Sp.P.ForkVersions[wantFork-1]; [4]byte(fk.PreviousVersion) != prev || fk.PreviousVersion != common.Version(l.St.ForkData.PreviousVersion) {
+				return report.Failf("chain/fork-record", "slot %d (%s): fork.previous_version %x, the preceding fork's version is %x (reference state: %x)", s, forkNames[wantFork], fk.PreviousVersion, prev, l.St.ForkData.PreviousVersion)
+			}
 			if uint64(fk.Epoch) != cc.Config.ForkEpochs[wantFork-1] {
 				return report.Failf("chain/fork-record", "slot %d: fork.epoch %d != %d", s, fk.Epoch, cc.Config.ForkEpochs[wantFork-1])
 			}
